@@ -376,6 +376,11 @@ func (ts *TestScript) cmdSkip(neg bool, args []string) {
 	}
 	ts.cmdWait(false, nil)
 
+	if ts.failed {
+		// An earlier line failed and ContinueOnError kept the script going:
+		// skipping now must not turn that failure into a skipped test.
+		ts.t.FailNow()
+	}
 	if len(args) == 1 {
 		ts.t.Skip(args[0])
 	}
